@@ -211,12 +211,15 @@ func (p *Protocol) ReadRequest(
 
 	// Reset the Reader to allow for properly reading the envelope if it
 	// exists.
+	rewound := false
 	if seeker, ok := r.(io.Seeker); ok {
-		// If the reader supports seking, use that.
-		if _, err := seeker.Seek(int64(-len(buf)), io.SeekCurrent); err != nil {
-			return nil, err
-		}
-	} else {
+		// If the reader supports seking, use that. A reader can have a Seek
+		// method and still be unable to seek (the read end of a pipe, a
+		// terminal).
+		_, err := seeker.Seek(int64(-len(buf)), io.SeekCurrent)
+		rewound = err == nil
+	}
+	if !rewound {
 		// Otherwise, create a new reader with the buffered bytes.
 		r = io.MultiReader(bytes.NewReader(buf[:]), r)
 	}
